@@ -295,6 +295,15 @@ def strata(seed):
                                    sigma=[0.06, 0.06], off2=0.0)),
              cfg=dict(base, n_live=600, split_threshold=1),
              base_seed=int(rng.integers(0, 10 ** 6))),
+        # an unconstrained parameter next to constrained ones, no networks:
+        # the bounds take that dimension from the unit cube (cube-ellipsoid
+        # mixture members), so membership and proposals of a shell are
+        # decided by different code paths that must describe the same region
+        dict(spec=dict(d=3, family='gauss', blob='none', prior='identity',
+                       params=dict(mu=[0.5, float(rng.choice([0.4, 0.6])),
+                                       0.5], sigma=[0.1, 0.1, 30.0])),
+             cfg=dict(base, n_live=400),
+             base_seed=int(rng.integers(0, 10 ** 6))),
     ]
 
 
